@@ -176,34 +176,37 @@ Theorem C20_unassigned_silent : forall r id v r' m used,
   rt_handleCC r id v = Some (r', m, used) -> m = None.
 Proof. exact unassigned_silent. Qed.
 
-(* The invariant of the whole system (MidiInv): G = the handshake invariant of
-   C20_nocross_learn_partial; J = inv_map, mapping, callback and value
+(* The invariant of the whole system (MidiInv), for ALL histories: the handshake
+   invariant of C20_learn_once / C20_pending_exact (MidiHandshake.HP) and J =
+   inv_map, mapping, callback and value
    vectors of the non-realtime side are consistent (NI: every inv_map entry's
    slot holds the callback of its address's port and its coarse/fine
    controllers are exactly the mapping entries pointing to that slot; queued
    (address, kind)s are unassigned), every snapshot in flight and the one the
    realtime side holds is well formed (SW: indices in range, one slot per
    address, one controller per slot and kind, values below 2^14), the pending
-   ring is in bounds.  Inv init, and every event of a nocross history
-   executes without out-of-range access / null dereference (step <> None)
-   and re-establishes Inv. *)
-Theorem C20_inv_init : forall U ports, Inv U ports world0 0 [].
+   ring is in bounds.  Inv init, and every admissible event - map / unMap /
+   clear / CC / either delivery, in whatever order - executes without
+   out-of-range access / new T[-1] / null dereference (step <> None) and
+   re-establishes Inv. *)
+Theorem C20_inv_init : forall U ports, Inv U ports world0.
 Proof. exact Inv_init. Qed.
 
-Theorem C20_inv_step : forall U ports w pend tg e,
-  (length U <= 32)%nat -> Inv U ports w pend tg -> ev_ok U e -> evok ports e ->
-  exists w' o, step ports w e = Some (w', o) /\
-    forall p' tg', qstep pend tg e o = Some (p', tg') -> Inv U ports w' p' tg'.
+Theorem C20_inv_step : forall U ports w e,
+  (length U <= 32)%nat -> Inv U ports w -> ev_ok U e -> evok ports e ->
+  exists w' o, step ports w e = Some (w', o) /\ Inv U ports w'.
 Proof. exact Inv_step. Qed.
 
-(* lifted over histories: every nocross history (<= 32 controllers, 7-bit
-   values, mapped addresses in the port table) runs to its end - no crash -
-   and ends in a consistent state *)
-Theorem C20_nocross_crash_free_partial : forall ports evs tr fin U,
+(* FULL, lifted over histories: every history (<= 32 controllers, 7-bit
+   values, mapped addresses in the port table), with the two halves' messages
+   delivered in any order, runs to its end - no crash - and ends in a
+   consistent state.  (Before the D19 fix: a write past the end in killMap,
+   corpus/C20/witnesses.txt.) *)
+Theorem C20_crash_free : forall ports evs tr fin U,
   (length U <= 32)%nat -> incl (ccids evs) U -> Forall (evok ports) evs ->
-  run ports world0 evs = (tr, fin) -> nocross evs tr = true ->
+  run ports world0 evs = (tr, fin) ->
   length tr = length evs /\ exists w, fin = Some w /\ J ports w.
-Proof. exact nocross_crash_free. Qed.
+Proof. exact crash_free. Qed.
 
 (* assigned to the oldest queued address, other bindings unaffected - first or
    second controller of the address alike: in a consistent state useFreeID(id)
@@ -245,38 +248,38 @@ Theorem C20_bind_installs : forall r ns ans r', rt_deliver r (RBind ns ans) = So
   exists s', rstorage r' = Some s' /\ mapping s' = mapping ns /\ callbacks s' = callbacks ns.
 Proof. exact bind_installs. Qed.
 
-(* History level: in a nocross history (same side condition and bound as
-   C20_nocross_learn_partial) a parameter message is produced only by a
-   controller value whose controller was assigned before - a midi-use-CC for
-   it reached the non-realtime side while an address was queued
+(* FULL, history level: in every history a parameter message is produced only
+   by a controller value whose controller was assigned before - a midi-use-CC
+   for it reached the non-realtime side while an address was queued
    (assigned_after collects exactly those) - and by no other event. *)
-Theorem C20_unassigned_silent_history_partial : forall ports evs tr fin U,
+Theorem C20_unassigned_silent_history : forall ports evs U,
   (length U <= 32)%nat -> incl (ccids evs) U -> Forall (fun x => 0 <= x) (ccids evs) ->
-  run ports world0 evs = (tr, fin) -> nocross evs tr = true ->
   silent_run ports world0 [] evs.
-Proof. exact nocross_silent. Qed.
+Proof. exact silent_all. Qed.
 
-(* Refinement against the abstract specification MidiSpec.astep (a finite map
-   controller -> (address, coarse|fine), a FIFO of addresses waiting to learn,
-   the realtime side's delayed copy, the last 7-bit value of every controller
-   in it, the 14-bit value of an address = coarse*128 + fine pushed through
-   the port's callback; no slots, index vectors, inv_map, cloneValues or
-   ring): on every nocross history the model emits, event by event, exactly
-   the records the specification emits - same queue traffic, same
-   assignments (oldest queued address), and every parameter message with
-   exactly the specification's address AND value; none for unassigned
-   controllers; unMap / clear / relearn change only what the table says; the
-   two 7-bit halves survive every rebuilt snapshot (cloneValues).
-   _partial: nocross (before the D19 fix the full statement was false,
-   C20_d19_regress; for crossing histories it is open) and
-   <= 32 controllers (tight: C20_capacity_refuted). *)
-Theorem C20_refines_spec_partial : forall ports evs tr fin U,
+(* FULL: refinement against the abstract specification MidiSpec.astep (a finite
+   map controller -> (address, coarse|fine), a FIFO of addresses waiting to
+   learn, the realtime side's delayed copy, the last 7-bit value of every
+   controller in it, the 14-bit value of an address = coarse*128 + fine pushed
+   through the port's callback, the controllers on offer with the rule "an
+   answer releases the controller it answers"; no slots, index vectors,
+   inv_map, cloneValues or ring): on EVERY history - the realtime and the
+   non-realtime half exchanging their messages in every admissible order - the
+   model emits, event by event, exactly the records the specification emits:
+   same queue traffic, same assignments (oldest queued address), and every
+   parameter message with exactly the specification's address AND value; none
+   for unassigned controllers; unMap / clear / relearn change only what the
+   table says; the two 7-bit halves survive every rebuilt snapshot
+   (cloneValues).  Before the D19 fix this was false (C20_d19_regress) and
+   proved for nocross histories only.  Bound: <= 32 controllers (tight:
+   C20_capacity_refuted). *)
+Theorem C20_refines_spec : forall ports evs tr fin U,
   (length U <= 32)%nat -> incl (ccids evs) U -> Forall (evok ports) evs ->
-  run ports world0 evs = (tr, fin) -> nocross evs tr = true ->
+  run ports world0 evs = (tr, fin) ->
   tr = arun ports astate0 evs.
-Proof. exact refine_nocross_values. Qed.
+Proof. exact refine_values. Qed.
 
-(* The bound "<= 32 controllers" of the three _partial theorems above is a
+(* The bound "<= 32 controllers" of the history-level theorems above is a
    real side condition: 40 addresses queued, 34 controllers offered at once,
    the 33rd (id 32) again - an admissible, nocross history on which
    controller 32 is offered twice and takes two queued addresses (the
